@@ -463,6 +463,9 @@ impl TypedStmt {
                 vec![]
             }
             StmtEnum::VarAssign(identifier, accessors, value) => {
+                // the assigned value is evaluated first (as in Rust): an assignment to the same
+                // variable made while evaluating it must not be overwritten by a stale copy
+                let mut value = value.compile(prg, env, circuit);
                 let mut collection = env.get(identifier).unwrap();
                 let mut accessed = vec![];
                 enum Assign {
@@ -588,7 +591,6 @@ impl TypedStmt {
                         }
                     }
                 }
-                let mut value = value.compile(prg, env, circuit);
                 for assign in accessed.into_iter().rev() {
                     match assign {
                         Assign::Array(mut array, elem_bits, mut index) => {
